@@ -138,13 +138,19 @@ func runFlushMust(c *Ctx, r *RuleRun) {
 				}
 			}
 		})
-		eachInstr(f, func(ins ssa.Instruction) {
+		directRemove := func(ins ssa.Instruction) bool {
 			cl, ok := ins.(*ssa.Call)
 			if !ok {
-				return
+				return false
 			}
 			obj := p.CalleeObj(cl)
-			if obj == nil || !funcIs(obj, "container/list", "List", "Remove") || !isLoadOfField(cl.Call.Args[0], imm) {
+			return obj != nil && funcIs(obj, "container/list", "List", "Remove") && isLoadOfField(cl.Call.Args[0], imm)
+		}
+		// the removal may live in a helper of the flusher: it counts at the call of the helper
+		removes := p.liftMay(directRemove)
+		eachInstr(f, func(ins ssa.Instruction) {
+			cl, ok := ins.(*ssa.Call)
+			if !ok || !removes(ins) {
 				return
 			}
 			n++
